@@ -181,6 +181,9 @@ def gen_cols(rng, c, p_none=0.4):
         return {'k': 'idx', 'v': v, 'as': rng.choice(['list', 'int64'])}
     k = rng.randint(1, c)
     v = [rng.randrange(c) for _ in range(k)] if rng.random() < 0.3 else rng.sample(range(c), k)
+    if rng.random() < 0.15:
+        # channels counted from the end (-1 is the last channel)
+        v = [x - c if rng.random() < 0.6 else x for x in v]
     return {'k': 'idx', 'v': v, 'as': rng.choice(['list', 'int64', 'int32'])}
 
 
